@@ -27,3 +27,55 @@ def check(ctx):
     ctx.floor('A10a', 10, 'destructured calls on the decode slice')
     ctx.floor('A10b', 3, 'None-initialised names dereferenced on the decode slice')
     ctx.floor('A4', 15, 'derivation walks')
+
+
+from ..selftest import V  # noqa: E402
+
+VARIANTS = [
+    V('base-return-infeasible', 'optimization/hierarchy/base.py',
+      [("            if graph_instance.feasible:\n                break\n", "            break\n")],
+      key='result-instance-feasible'),
+    V('fast-drop-feasible-guard', 'optimization/hierarchy/fast.py',
+      [("        if graph_instance is None or not graph_instance.feasible:\n            raise RuntimeError('No more feasible graphs!')\n", "        if graph_instance is None:\n            raise RuntimeError('No more feasible graphs!')\n")],
+      key='result-instance-feasible'),
+    V('fast-none-deref', 'optimization/hierarchy/fast.py',
+      [("if graph_instance is None or not graph_instance.feasible:", "if not graph_instance.feasible:")],
+      key='graph_instance'),
+    V('fast-arity', 'optimization/hierarchy/fast.py',
+      [("                return tuple(), graph.copy()\n", "                return graph.copy()\n")], key='_get_graph'),
+    V('sentinel-dropped-decode', 'optimization/graph_processor.py',
+      [("            if i_exist_pattern == -1:\n                if i_comb is None:", "            if i_exist_pattern == -2:\n                if i_comb is None:")],
+      key='sentinel:i_exist_pattern'),
+    V('sentinel-dropped-count', 'optimization/graph_processor.py',
+      [("                    if i_exist == -1:  # Infeasible existence scheme\n                        n_combinations[i_comb] = 0\n                    else:\n                        existence = assignment_manager.matrix_gen.existence_patterns.patterns[i_exist]",
+        "                    if i_comb == -1:  # Infeasible existence scheme\n                        n_combinations[i_comb] = 0\n                    else:\n                        existence = assignment_manager.matrix_gen.existence_patterns.patterns[i_exist]")],
+      key='sentinel:i_exist'),
+    V('mask-not-passed', 'optimization/graph_processor.py',
+      [("sel_choice_opt_idx, mask=self._existence_mask, is_fixed=is_fixed, exclude=self._excluded_cache)\n\n                # If the combination",
+        "sel_choice_opt_idx, mask=self._comb_fixed_mask, is_fixed=is_fixed, exclude=self._excluded_cache)\n\n                # If the combination")],
+      key='mask-passed'),
+    V('mask-not-cleared', 'optimization/graph_processor.py',
+      [("                existence_infeasibility_mask[exist_map == -1] = False\n", "                pass\n")],
+      key='mask-minus-one'),
+    V('no-fast-fallback-on-memory', 'optimization/graph_processor.py',
+      [("        except (TimeoutError, MemoryError):\n            analyzer = self.encoders[SelChoiceEncoderType.FAST]",
+        "        except TimeoutError:\n            analyzer = self.encoders[SelChoiceEncoderType.FAST]")],
+      key='complete-analysis-fallback'),
+    V('confirmed-walk-follows-excludes', 'graph/traversal.py',
+      [("if get_edge_type(out_edge) in (EdgeType.INCOMPATIBILITY, EdgeType.EXCLUDES):", "if get_edge_type(out_edge) == EdgeType.INCOMPATIBILITY:")],
+      key='get_confirmed_edges_for_node'),
+    V('traverse-drops-connects', 'graph/traversal.py',
+      [("if get_edge_type(edge) in [EdgeType.DERIVES, EdgeType.CONNECTS]}", "if get_edge_type(edge) in [EdgeType.DERIVES]}")],
+      key='traverse_until_choice_nodes'),
+    # benign twins
+    V('twin-whitelist-as-tuple', 'graph/traversal.py',
+      [("if get_edge_type(edge) in [EdgeType.DERIVES, EdgeType.CONNECTS]}", "if get_edge_type(edge) in (EdgeType.CONNECTS, EdgeType.DERIVES)}")],
+      expect='silent'),
+    V('twin-feasible-guard-rewritten', 'optimization/hierarchy/base.py',
+      [("            if graph_instance.feasible:\n                break\n\n            # Mark as infeasible and try again\n            feasibility_mask[i_comb] = False\n",
+        "            if not graph_instance.feasible:\n                # Mark as infeasible and try again\n                feasibility_mask[i_comb] = False\n                continue\n            break\n")],
+      expect='silent'),
+    V('twin-sentinel-neq', 'optimization/graph_processor.py',
+      [("                if i_exist == -1:\n                    continue\n                i_comb_exist", "                if not i_exist != -1:\n                    continue\n                i_comb_exist")],
+      expect='silent'),
+]
